@@ -105,8 +105,7 @@ func NewServerDnsListener(topDomain string, comm ServerCommunicator) *ServerDnsL
 				if u.lastConnection.Add(OldConnectionTimeout).Before(now) {
 					// Remove connection from our list
 					log.Infof("Removing stale old connection for user %d (%s)", u.UserId, u.remoteAddress)
-					srv.connections[u.UserId] = nil
-					srv.oldConnections[u.UserId] = u
+					srv.oldConnections[u.UserId] = nil
 				}
 			}
 
